@@ -20,6 +20,15 @@ class ToolError(Exception):
     pass
 
 
+class HarnessCrash(ToolError):
+    """The harness process was killed by a signal (abort, segfault): the code under test took the process down in a
+    way catch_unwind cannot turn into an event. Checks that know what was running treat it as data (a violation)."""
+
+    def __init__(self, msg, returncode, stderr, args):
+        super().__init__(msg)
+        self.returncode, self.stderr, self.args_ = returncode, stderr, args
+
+
 def log(*a):
     print(*a, file=sys.stderr, flush=True)
 
@@ -92,6 +101,9 @@ def build_engine(profile="dev", hooks=True):
 def harness(binpath, args, timeout=3600, input=None, env=None):
     r = subprocess.run([binpath] + [str(a) for a in args], stdout=subprocess.PIPE, stderr=subprocess.PIPE,
                        text=True, timeout=timeout, input=input, env={**os.environ, **(env or {})})
+    if r.returncode < 0:
+        raise HarnessCrash("harness %s killed by signal %d: %s" % (args[:2], -r.returncode, r.stderr[-2000:]),
+                           r.returncode, r.stderr[-2000:], args)
     if r.returncode != 0:
         raise ToolError("harness %s failed (%d): %s" % (args[:2], r.returncode, r.stderr[-2000:]))
     return r.stdout
